@@ -32,3 +32,90 @@ Theorem slice_eq_ref :
     slice_by_line_run cfg M (fun _ => Continue) s = RunOk (grep_ref cfg (m_is_match M) s).
 Proof. exact slice_eq_ref_proof. Qed.
 Print Assumptions slice_eq_ref.
+
+(* 3. What the reference delivers, read declaratively (stop-on-nonmatch off).  `sc l` says whether
+      line l is a result (match, or non-match under inversion); `credit (rev pre)` is positive
+      exactly when the nearest result before lies within A lines (credit_pos).  Events carry the
+      true coordinates: offset = total length of the lines before, number = 1 + count of them. *)
+From RG Require Import Proofs.GrepSpecProofs.
+
+(* 3a. completeness: every result line is delivered as a match; every non-result line within A
+       lines after a result is delivered as after-context; every non-result line that is not
+       after-context and has a result within B lines after it is delivered as before-context;
+       passthru delivers every line. *)
+Theorem results_delivered :
+  forall cfg is_match, c_stop_on_nonmatch cfg = false ->
+  forall pre l post, sc cfg is_match l = true ->
+    In (ev_matched cfg pre l) (g_out (run cfg is_match (pre ++ l :: post))).
+Proof. exact matched_delivered. Qed.
+Print Assumptions results_delivered.
+
+Theorem after_context_delivered :
+  forall cfg is_match, c_stop_on_nonmatch cfg = false ->
+  forall pre l post, sc cfg is_match l = false -> 1 <= credit cfg is_match (rev pre) ->
+    In (ev_ctx cfg CAfter pre l) (g_out (run cfg is_match (pre ++ l :: post))).
+Proof. exact after_delivered. Qed.
+Print Assumptions after_context_delivered.
+
+Theorem credit_is_window :
+  forall cfg is_match r, 1 <= credit cfg is_match r <->
+    exists mid l r', r = mid ++ l :: r' /\ sc cfg is_match l = true /\
+                     Forall (fun x => sc cfg is_match x = false) mid /\ length mid < c_after cfg.
+Proof. exact credit_pos. Qed.
+Print Assumptions credit_is_window.
+
+Theorem before_context_delivered :
+  forall cfg is_match, c_stop_on_nonmatch cfg = false ->
+  forall pre k mid j post,
+    sc cfg is_match k = false -> credit cfg is_match (rev pre) = 0 -> c_passthru cfg = false ->
+    Forall (fun x => sc cfg is_match x = false) mid -> length mid < c_before cfg -> sc cfg is_match j = true ->
+    In (ev_ctx cfg CBefore pre k) (g_out (run cfg is_match (pre ++ k :: mid ++ j :: post))).
+Proof. exact before_delivered. Qed.
+Print Assumptions before_context_delivered.
+
+Theorem passthru_delivers_all :
+  forall cfg is_match, c_stop_on_nonmatch cfg = false ->
+  forall pre l post, c_passthru cfg = true ->
+    exists e, In e (g_out (run cfg is_match (pre ++ l :: post))) /\
+      match e with
+      | EMatched o n b | EContext _ o n b => o = length (concat pre) /\ n = lnum_of cfg (S (length pre)) /\ b = l
+      | _ => False
+      end.
+Proof. exact passthru_delivers_every_line. Qed.
+Print Assumptions passthru_delivers_all.
+
+(* 3b. soundness: nothing else is delivered — every event is a separator or one of the four cases
+       above, with the true offset and line number of its line (`justified`). *)
+Theorem nothing_else_delivered :
+  forall cfg is_match, c_stop_on_nonmatch cfg = false ->
+  forall ls e, In e (g_out (run cfg is_match ls)) -> justified cfg is_match ls e.
+Proof. exact every_event_justified. Qed.
+Print Assumptions nothing_else_delivered.
+
+(* 3c. input order, no line twice: each delivered line starts at or after the end of the previous
+       delivered line; the delivered lines plus the pending ones fit in the input. *)
+Theorem results_in_input_order :
+  forall cfg is_match, c_stop_on_nonmatch cfg = false ->
+  forall ls,
+    ordered_from 0 (rev (g_out (run cfg is_match ls))) /\
+    last_end 0 (rev (g_out (run cfg is_match ls))) + pbytes (g_pend (run cfg is_match ls)) <= length (concat ls).
+Proof. exact delivered_in_order. Qed.
+Print Assumptions results_in_input_order.
+
+(* 3d. a search that runs to completion reports the input's full length *)
+Theorem completed_search_reports_length :
+  forall cfg is_match, c_stop_on_nonmatch cfg = false ->
+  forall ls, g_off (run cfg is_match ls) = length (concat ls).
+Proof. exact finish_is_length. Qed.
+Print Assumptions completed_search_reports_length.
+
+(* 3e. separators: the event stream is exactly its line events with a separator inserted before a
+       line event iff context is enabled, something was delivered before, and the line does not
+       start where the previously delivered line ended (lines are non-empty). *)
+From RG Require Import Proofs.GrepBreaks.
+Theorem separators_exactly_between_groups :
+  forall cfg is_match, c_stop_on_nonmatch cfg = false ->
+  forall ls, Forall (fun l : bytes => l <> []) ls ->
+    rev (g_out (run cfg is_match ls)) = with_breaks cfg 0 false (lines_of (run cfg is_match ls)).
+Proof. intros cfg im H ls Hne. exact (proj1 (separators_exactly_at_gaps cfg im H ls Hne)). Qed.
+Print Assumptions separators_exactly_between_groups.
